@@ -11,7 +11,8 @@ LEVEL = "model_checking"
 RULE = ("(c) schedules: for a tree whose 5 (quick) / 6 (thorough) files all pass the prefix, suffix and content stages, ALL "
         "n! arrival orders at each collector seam of `group` (scan result, rehash#0 prefix, rehash#1 suffix, rehash#2 "
         "content; hook E6 first gathers what the collector would receive, then delivers it in the selected order), one "
-        "seam at a time, plus {identity, reverse}^4 across the seams; (a) every --threads spec name in {none, main, "
+        "seam at a time, plus {identity, reverse}^4 across the seams, and the same for a tree with hard links next to a copy under "
+        "--rf-under 3 / --rf-over 2 / --rf-under 2 (all 5! orders per seam); (a) every --threads spec name in {none, main, "
         "default, ssd} x (r,s) in {0,1,2,64}^2 and pairs main:x + default:y; (b) every permutation of 3-4 roots and "
         "--stdin; (d) hash function x --max-prefix-size x --max-suffix-size x disk kind x cache. A state is one complete "
         "execution of the real binary under one schedule/configuration; transitions are the messages delivered at the "
@@ -28,6 +29,13 @@ SEAM_TREE_5 = [
     {"p": "r/e/b2", "k": "file", "c": ["flip", 70000, 1, 35000]},
 ]
 SEAM_TREE_6 = SEAM_TREE_5 + [{"p": "r/c1", "k": "file", "c": ["flip", 70000, 1, 34000]}]
+# hard links next to an independent copy, searched with --rf-under 3: the replica count must not depend on whether
+# the two links of one file arrive next to each other
+SEAM_TREE_LINKS = [
+    {"p": "r/a", "k": "file", "c": ["base", 70000, 1]}, {"p": "r/l", "k": "hard", "to": "r/a"},
+    {"p": "r/b", "k": "file", "c": ["base", 70000, 1]}, {"p": "r/m", "k": "file", "c": ["flip", 70000, 1, 35000]},
+    {"p": "r/n", "k": "hard", "to": "r/m"},
+]
 MULTI = [
     {"p": "r1/a", "k": "file", "c": ["base", 4097, 1]}, {"p": "r2/a", "k": "file", "c": ["base", 4097, 1]},
     {"p": "r3/x/a", "k": "file", "c": ["base", 4097, 1]}, {"p": "r1/ah", "k": "hard", "to": "r1/a"},
@@ -52,6 +60,9 @@ def cases(tier, seed):
     for site in SITES:
         out.append({"kind": "seam", "tree": tree, "site": site, "chunk": None})
     out.append({"kind": "cross_seam", "tree": tree})
+    for extra in ((["--rf-under", "3"],) if quick else (["--rf-under", "3"], ["--rf-over", "2"], ["--rf-under", "2"])):
+        for site in (("scan", "rehash#2") if quick else SITES):
+            out.append({"kind": "seam", "tree": "seamlinks", "site": site, "chunk": None, "args": extra})
     vals = (0, 1, 2, 64)
     specs = []
     for name in ("", "main", "default", "ssd"):
@@ -87,7 +98,7 @@ def cases(tier, seed):
 
 
 def tree_of(name):
-    return {"seam5": SEAM_TREE_5, "seam6": SEAM_TREE_6, "multi": MULTI}[name]
+    return {"seam5": SEAM_TREE_5, "seam6": SEAM_TREE_6, "multi": MULTI, "seamlinks": SEAM_TREE_LINKS}[name]
 
 
 def roots_of(name):
@@ -111,7 +122,7 @@ def evaluate(case):
     keys = []
     with C.Scratch() as sc:
         C.make_tree(sc.tree, tree_of(case["tree"]))
-        roots = roots_of(case["tree"])
+        roots = case.get("args", []) + roots_of(case["tree"])
         env0 = {"FCLONES_VERIF_DISK_KIND": "ssd"}
         err, base = run(sc, roots, env0)
         if err:
@@ -150,12 +161,13 @@ def evaluate(case):
                     counts[s] = int(n)
             if sorted(counts) != sorted(SITES):
                 raise C.MachineryError("unexpected seam sites %s" % counts)
+            # the permutation seam itself must not change the result: the run without any seam request is the baseline
             if case["kind"] == "seam":
                 n = counts[case["site"]]
                 if n < 4:
                     raise C.MachineryError("seam %s delivers only %d messages: vacuous" % (case["site"], n))
                 for idx in range(math.factorial(n)):
-                    check("%s:%d" % (case["site"], idx), roots, dict(env0, FCLONES_VERIF_PERM="%s:%d" % (case["site"], idx)),
+                    check("%s:%s:%d" % (case["site"], " ".join(case.get("args", [])), idx), roots, dict(env0, FCLONES_VERIF_PERM="%s:%d" % (case["site"], idx)),
                           "arrival_order@" + case["site"])
                     transitions += n
             else:
